@@ -76,7 +76,8 @@ impl UserPref {
             .inspect(|entry| {
                 #[cfg(chokan_verif)]
                 crate::verif::count(&crate::verif::ENTRIES_SENT);
-                self.user_dictionary.add_entry(entry.clone());
+                // ユーザー辞書への追加は、辞書更新タスクが行う。ここでも追加すると同じエントリが二重に保存され、
+                // 再起動後に同点の候補の順序が変わってしまう
                 tracing::info!("Learned new entry: {}", entry);
             })
     }
